@@ -106,6 +106,13 @@ func HarnessC18Propagation() {
 	upPath := verif.OneOf("upstream.path", "", "metadata")
 	downPath := verif.OneOf("downstream.path", "vendor", "vendor/")
 	directive := tufv01.NewPropagationDirective("d", zz18UpLoc, zz18UpRef, upPath, zz18DownRef, downPath)
+	directives := []tuf.PropagationDirective{directive}
+	// optionally a second directive for the same upstream: its "metadata"
+	// subtree also goes to a nested path that does not exist downstream yet
+	two := verif.ConcreteBool(verif.Bool("two.directives"))
+	if two {
+		directives = append(directives, tufv01.NewPropagationDirective("d2", zz18UpLoc, zz18UpRef, "metadata", zz18DownRef, "third_party/meta"))
+	}
 
 	// expected content after propagation
 	want := map[string]string{"keep": "d-keep", "vendored/z": "d-z", odd: "d-odd"}
@@ -117,8 +124,16 @@ func HarnessC18Propagation() {
 		}
 	}
 
+	if two {
+		for p, c := range upFiles {
+			if strings.HasPrefix(p, "metadata/") {
+				want["third_party/meta/"+strings.TrimPrefix(p, "metadata/")] = c
+			}
+		}
+	}
+
 	commitsBefore := down.NumCommits()
-	err := PropagateChangesFromUpstreamRepository(downRepo, upRepo, []tuf.PropagationDirective{directive}, false)
+	err := PropagateChangesFromUpstreamRepository(downRepo, upRepo, directives, false)
 	verif.Assert(err == nil, "propagation-ok")
 	if err != nil {
 		return
@@ -146,7 +161,7 @@ func HarnessC18Propagation() {
 	for rep := 0; rep < verif.Bound("repetitions", 1, 2); rep++ {
 		commits := down.NumCommits()
 		tip := down.Ref(zz18DownRef)
-		err := PropagateChangesFromUpstreamRepository(downRepo, upRepo, []tuf.PropagationDirective{directive}, false)
+		err := PropagateChangesFromUpstreamRepository(downRepo, upRepo, directives, false)
 		verif.Assert(err == nil, "repeated-propagation-ok")
 		verif.Assert(down.NumCommits() == commits && down.Ref(zz18DownRef).Equal(tip), "repetition-creates-nothing["+strconv.Itoa(rep)+"]")
 	}
